@@ -3,7 +3,7 @@
 LEVEL = {"C01": "exploration"}
 JOBS_BASE = {}
 
-HDR_INV = ["InvIff", "InvValue", "InvIvPiv", "InvDup", "InvUnprot", "InvProt", "Emit"]
+HDR_INV = ["InvIff", "InvValue", "InvIvPiv", "InvDup", "InvUnprot", "InvProt", "InvProt2", "Emit"]
 
 MSG_INV = ["InvIff", "InvValue", "InvNestedDup", "Emit"]
 
@@ -38,9 +38,10 @@ JOBS = {
                  "positions x repetition counts up to 4096 (65536 thorough), decoded in a child process on the default stack; (c) all byte strings "
                  "of length <= 2, the repository's own test vectors and seeded mutations of them, uniform random strings. "
                  "non-trivial = input accepted by the entry point (follow-ups exercised) or recipe with repetition > 3"},
-        {"module": "MC_Nesting", "spec": "Spec", "invariants": ["InvRecipeParses", "InvReturns", "Emit"],
-         "quick": {"constants": {"Reps": "{1, 2, 3, 8, 256, 4096}", "MaxSteps": 1}, "timeout": 600},
-         "thorough": {"constants": {"Reps": "{1, 2, 3, 8, 256, 4096, 65536}", "MaxSteps": 2}, "timeout": 3000}},
+        {"module": "MC_Nesting", "spec": "Spec", "invariants": ["InvRecipeParses", "InvReturns", "InvDeepAccepted", "Emit"],
+         "constants": {"PropId": '"C01"', "SmallLimit": 40},
+         "quick": {"constants": {"Reps": "{1, 2, 3, 8, 40, 256, 4096}", "MaxSteps": 1}, "timeout": 600},
+         "thorough": {"constants": {"Reps": "{1, 2, 3, 8, 40, 256, 4096, 65536}", "MaxSteps": 2}, "timeout": 3000}},
         {"module": "MC_Machine", "spec": "Spec", "invariants": ["InvTotal", "InvDecodeOutcome", "InvOneItem", "InvReencode", "InvFixed", "Emit"],
          "quick": {"constants": {"MaxDepth": 3}, "timeout": 600}, "thorough": {"constants": {"MaxDepth": 4}, "timeout": 3000}},
         {"module": "MC_Machine", "spec": "Spec", "invariants": ["InvTotal", "InvDecodeOutcome", "InvOneItem", "InvReencode", "InvFixed", "Emit"],
@@ -190,5 +191,14 @@ TRACE_FAMS = {
     "C12": ["header", "key", "cwtkdf"], "C13": ["valid", "msg"], "C14": ["msg"], "C15": ["header", "key", "cwtkdf"], "C16": ["cmp"],
     "C18": ["cwtkdf"], "C19": ["builder"], "C20": ["canon"],
 }
+def nesting_job(pid):
+    return {"module": "MC_Nesting", "spec": "Spec", "invariants": ["InvRecipeParses", "InvReturns", "InvDeepAccepted", "Emit"],
+            "constants": {"PropId": '"%s"' % pid, "SmallLimit": 40},
+            "quick": {"constants": {"Reps": "{1, 3, 17, 40}", "MaxSteps": 1}, "timeout": 600},
+            "thorough": {"constants": {"Reps": "{1, 3, 17, 40}", "MaxSteps": 2}, "timeout": 3000}}
+
+
+for _p in ("C09", "C13"):
+    JOBS[_p] = JOBS[_p] + [nesting_job(_p)]
 for _p, _f in TRACE_FAMS.items():
     JOBS[_p] = JOBS[_p] + [trace_job(_f)]
